@@ -96,6 +96,8 @@ F_head   == { Plain(GET, T_ab, hs) : hs \in HeaderLists } \cup { Req(GET, T_ab, 
 F_body   == { Req(POST, T_p, 1, StdHost, "cl", b, <<>>, CRLF) : b \in Bodies }
             \cup UNION { { Req(POST, T_p, 1, StdHost, "ch", b, cs, CRLF) : cs \in Chunkings(b) } : b \in Bodies }
             \cup { Req(POST, T_p, 1, <<H(Expect_, <<SP>>, v_100)>>, "cl", B_abc, <<>>, CRLF) }
+\* every way of writing the header block combined with a body in both framings
+F_mix    == { Req(POST, T_p, 1, hs, "cl", B_abc, <<>>, CRLF) : hs \in HeaderLists } \cup { Req(POST, T_q, 1, hs, "ch", B_abc, <<1, 2>>, CRLF) : hs \in HeaderLists }
 F_range  == { Plain(GET, T_file, <<H(Range_, <<SP>>, bytesEq \o r)>>) : r \in Ranges }
 \* outside the strict grammar: bare LF line ends, folded header line
 F_len    == { Req(GET, T_ab, 1, StdHost, "none", <<>>, <<>>, <<LF>>),
@@ -108,10 +110,17 @@ F_bad    == { Junk(Plain(GET, T_ab, StdHost), <<NoColon>>),
               Junk(Req(POST, T_p, 1, StdHost, "cl", B_abc, <<>>, CRLF), <<NoColon>>),
               Junk(Plain(GET, T_ab, <<>>), <<NoColon, <<88, 58, 32, 121>>>>) }     \* BadLine / X: y
 
-Firsts  == F_line \cup F_head \cup F_body \cup F_range \cup F_len \cup F_bad
+\* thorough: the full product method x target x header block x framing
+Framings == {<<"none", <<>>, <<>>>>} \cup {<<"cl", b, <<>>>> : b \in Bodies} \cup UNION {{<<"ch", b, cs>> : cs \in Chunkings(b)} : b \in Bodies}
+F_prod   == IF Profile = "quick" THEN {}
+            ELSE { Req(m, t, 1, hs, f[1], f[2], f[3], CRLF) : m \in Methods, t \in Targets, hs \in HeaderLists, f \in Framings }
+
+Firsts  == F_line \cup F_head \cup F_body \cup F_mix \cup F_range \cup F_len \cup F_bad \cup F_prod
 \* pipelined pairs: the second request follows the first on the same connection
 PipeFirst  == { Plain(GET, T_ab, StdHost), Junk(Plain(GET, T_ab, StdHost), <<NoColon>>), Req(POST, T_p, 1, StdHost, "cl", B_abc, <<>>, CRLF), Req(POST, T_p, 1, StdHost, "ch", B_abc, <<1, 2>>, CRLF),
-                Plain(GET, T_ab, <<H(HConnection, <<SP>>, VClose)>>), Req(GET, T_ab, 0, <<>>, "none", <<>>, <<>>, CRLF) }
+                Plain(GET, T_ab, <<H(HConnection, <<SP>>, VClose)>>), Req(GET, T_ab, 0, <<>>, "none", <<>>, <<>>, CRLF),
+                Req(GET, T_ab, 0, <<H(HConnection, <<SP>>, VKeepAlive)>>, "none", <<>>, <<>>, CRLF),
+                Req(POST, T_p, 1, <<H(Expect_, <<SP>>, v_100)>>, "cl", B_abc, <<>>, CRLF) }
 PipeSecond == { Plain(GET, T_q, StdHost), Req(POST, T_root, 1, <<>>, "cl", B_bin, <<>>, CRLF) }
 
 IsLenient(r) == r.eol # CRLF \/ \E i \in 1..Len(r.hs) : r.hs[i].fold # <<>>
@@ -138,7 +147,9 @@ Out(x) == LET st == SplitTarget(x.t) IN
           [m |-> x.m, t |-> x.t, v |-> x.v, hs |-> x.hs, body |-> x.body,
            path |-> NormPath(x.t), pstrict |-> TargetStrict(x.t),
            q |-> st.query, qp |-> IF QueryStrict(st.query) THEN ParseQuery(st.query) ELSE <<>>,
-           qstrict |-> (st.query = <<>> \/ QueryStrict(st.query))]
+           qstrict |-> (st.query = <<>> \/ QueryStrict(st.query)),
+           \* "Expect: 100-continue": the server answers with an interim 100 response before it reads the body
+           cont100 |-> (HeaderOf(x.hs, LowerSeq(Expect_)) = v_100)]
 ExpectedAt(a, b, kk) == LET c == Complete(a, b, kk) IN [i \in 1..Len(c) |-> Out(c[i])]
 
 Strict == ~IsLenient(r1) /\ (r2 = None \/ ~IsLenient(r2))
